@@ -78,8 +78,10 @@ func (hh *heads) Replace(ctx context.Context, old cid.Cid, new cid.Cid, height u
 // List returns the list of current heads plus the max height.
 // @todo Document Heads.List function
 func (hh *heads) List(ctx context.Context) ([]cid.Cid, uint64, error) {
+	// The trailing separator restricts the scan to this namespace: without it the heads of
+	// field (or collection) 1 would also include those of fields 10, 11, ...
 	iter, err := hh.store.Iterator(ctx, corekv.IterOptions{
-		Prefix: hh.namespace.Bytes(),
+		Prefix: append(hh.namespace.Bytes(), '/'),
 	})
 	if err != nil {
 		return nil, 0, err
